@@ -111,6 +111,13 @@ func cmdVerify(args []string) {
 			Discharge(r.Obls, SolveOpts{Timeout: *timeout, ScratchDir: scratch}, runtime.NumCPU(), true)
 			ok, bad := 0, 0
 			for _, o := range r.Obls {
+				if dbg := os.Getenv("GOVC_DEBUG"); dbg != "" && strings.Contains(o.Name, dbg) {
+					fmt.Printf("  DEBUG %s [%s]\n", o.Name, o.Result.Status)
+					for _, a := range o.Asserts {
+						fmt.Printf("       pc: %s\n", o.x.tb.Show(a))
+					}
+					fmt.Printf("       goal: %s\n", o.x.tb.Show(o.Goal))
+				}
 				if o.Result.Status == "unsat" {
 					ok++
 					if *verbose {
